@@ -37,7 +37,12 @@
 // position, every 1-2 layer split. Entry points: image.FromV1Image + CleanUp,
 // image.FromTarball + CleanUp (singles and thorough pairs only - it is FromV1Image behind
 // go-containerregistry's tarball reader), Unpacker.UnpackSquashed,
-// Unpacker.UnpackSquashedFromTarball, under the configuration tables in image.go. Oracle: only
+// Unpacker.UnpackSquashedFromTarball, and scalibrtar.SaveToTarball (designated = exactly the file
+// it is asked to write; singles and shapes), under the configuration tables in image.go. The shapes
+// block also has damaged layer streams (no tar archive / cut inside a file / unreadable blob). Scans
+// additionally place the auxiliary production paths a plugin's non-test code names without requiring
+// them (aux-empty/half/flip variants, e.g. containerd's snapshotter metadata.db). The sandbox holds
+// dangling and live symlink decoys outside every designated directory. Oracle: only
 // S/out (resp. the image's fresh ExtractDir) differs from the before-snapshot; after CleanUp, and
 // after an error return without an image, R is back to the before-snapshot; every symlink left in
 // the designated directory resolves (component by component, stopping at the first missing
@@ -110,6 +115,7 @@ func singleEPs() []epCfg {
 	for i := range layerCfgs {
 		out = append(out, epCfg{"v1", i}, epCfg{"tarball", i})
 	}
+	out = append(out, epCfg{"save", 0})
 	return out
 }
 
@@ -154,7 +160,7 @@ func forEachImageCase(thorough bool, fn func(idx int, c imgCase) bool) []blockIn
 	end()
 
 	// shapes: images without any layer content and with history that does not match the layers
-	begin("shapes: layer-less images, empty-tar layers, history-only / missing / mismatched history x every entry point x every configuration")
+	begin("shapes: layer-less images, empty-tar layers, damaged layer streams, history-only / missing / mismatched history x every entry point x every configuration")
 	fa := entry{Name: "a", Kind: "f"}
 	layerSets := [][][]entry{{{}}, {{}, {}}, {{fa}}, {{}, {fa}}, {{fa}, {}}}
 	type shaped struct {
@@ -168,6 +174,14 @@ func forEachImageCase(thorough bool, fn func(idx int, c imgCase) bool) []blockIn
 				continue // the plain one-entry image is in the singles
 			}
 			shapes = append(shapes, shaped{sh, ls})
+		}
+	}
+	// damaged layer streams: not a tar archive, cut inside the first file, blob that cannot be read;
+	// alone, below and above a good layer
+	for _, dmg := range []string{"garbage", "truncated", "unreadable"} {
+		bad := []entry{{Name: dmg, Kind: "!"}, fa}
+		for _, ls := range [][][]entry{{bad}, {{fa}, bad}, {bad, {fa}}, {{{Name: "b", Kind: "f"}}, bad, {fa}}} {
+			shapes = append(shapes, shaped{"", ls})
 		}
 	}
 	for _, sh := range shapes {
@@ -273,7 +287,7 @@ func forEachImageCase(thorough bool, fn func(idx int, c imgCase) bool) []blockIn
 	for _, tr := range []tramp{{"t", ".", "t/t/.."}, {"a/b", "..", "a/b/.."}} {
 		for _, lk := range []string{"s", "h"} {
 			l1 := entry{Name: tr.n, Kind: lk, Target: tr.t}
-			for _, land := range []string{"", "out-evil", "out2", "out.bak", "tmp", "cwd", "out-evil/keep"} {
+			for _, land := range []string{"", "out-evil", "out2", "out.bak", "tmp", "cwd", "out-evil/keep", "zzz", "out-evil/zzz"} {
 				tgt := tr.via
 				twinName := land
 				if land != "" {
@@ -960,6 +974,10 @@ func list() {
 		for _, p := range in.Paths {
 			fx := strings.TrimPrefix(p.Fixture, in.PkgDir+"/testdata/")
 			fmt.Printf("    %-90s %04o  <- %s\n", p.Path, p.Mode, fx)
+		}
+		for _, p := range in.Aux {
+			fx := strings.TrimPrefix(p.Fixture, in.PkgDir+"/testdata/")
+			fmt.Printf("    aux %-86s %04o  <- %s\n", p.Path, p.Mode, fx)
 		}
 	}
 	blocks := forEachImageCase(os.Getenv("VERIF_TIER") == "thorough", func(int, imgCase) bool { return true })
